@@ -268,10 +268,15 @@ def execute(case):
                          'prepare:' + type(e).__name__))
     viol = None
     seen = set()
+    import json as _json
+    _blob = _json.dumps(case['x'])
+    oneshot = '"iterator"' in _blob or '"generator"' in _blob
     for draw in case['draws']:
         for ep in [e_ for e_ in p1.entry_points() if e_ in p2.entry_points()]:
-            o1 = p1.eval(ep, H.build_obj(case['x']), draw)
-            o2 = p2.eval(ep, H.build_obj(case['x']), draw)
+            # (the same object for both sides unless it holds one-shot streams: see the note on address-ordered sets below)
+            xo = H.build_obj(case['x'])
+            o1 = p1.eval(ep, xo, draw)
+            o2 = p2.eval(ep, H.build_obj(case['x']) if oneshot else xo, draw)
             c1, c2 = entry.classify(o1, p1.conf), entry.classify(o2, p2.conf)
             if ep == 'is_bearable':
                 seen.add(c2)
@@ -293,25 +298,31 @@ def execute(case):
         if viol:
             break
     if viol is None and plain == 'last':
-        # the option side has run: the plain configuration on the unrewritten hint must still answer for the unrewritten hint
+        # the option side has run: the plain configuration on the unrewritten hint must answer as it does in a pristine process
+        # (beartype's state put back, as in C14) - whatever the option side cached must not be served to it
+        from sim import state
         probes['plain_conf_same_hint'] = 1
         try:
+            # (one object for both evaluations: a set of objects hashed by address iterates in an order that differs from build
+            # to build, and the first item is the one a check looks at; one-shot streams are rebuilt)
+            import json
+            blob = json.dumps(case['x'])
+            shared = None if ('"iterator"' in blob or '"generator"' in blob) else H.build_obj(case['x'])
+            mk = (lambda: shared) if shared is not None else (lambda: H.build_obj(case['x']))
             p0 = entry.Prepared(hint1, conf2)
-            x = H.build_obj(case['x'])
-            want = 'accept' if H.conforms(case['h'], x) else ('reject' if H.must_reject(case['h'], x) else None)
+            after = [(draw, ep, entry.classify(p0.eval(ep, mk(), draw), p0.conf))
+                     for draw in case['draws'][:2] for ep in p0.entry_points()]
+            state.restore()
+            p0f = entry.Prepared(hint1, conf2)
+            fresh = [(draw, ep, entry.classify(p0f.eval(ep, mk(), draw), p0f.conf))
+                     for draw in case['draws'][:2] for ep in p0f.entry_points()]
         except Exception:       # noqa
-            want = None
-        if want is not None:
-            for draw in case['draws'][:2]:
-                for ep in p0.entry_points():
-                    o0 = p0.eval(ep, H.build_obj(case['x']), draw)
-                    c0 = entry.classify(o0, p0.conf)
-                    if c0 != want and c0 != 'error':
-                        viol = ('plain_side_contaminated', 'draw %d: %s under the plain configuration on the UNREWRITTEN hint, evaluated after the '
-                                'option side: %s, the reference model says %s' % (draw, ep, c0, want), 'plain:' + kind + ':' + ep)
-                        break
-                if viol:
-                    break
+            after = fresh = []
+        for a, f in zip(after, fresh):
+            if a != f:
+                viol = ('plain_side_contaminated', 'draw %d: %s under the plain configuration on the UNREWRITTEN hint: %s when evaluated after '
+                        'the option side, %s in a pristine state' % (a[0], a[1], a[2], f[2]), 'plain:' + kind + ':' + a[1])
+                break
     if len(seen) > 1:
         probes['verdict_depends_on_draw'] = 1
     return c03._out({'h': case['h'], 'x': case['x'], 'conf': conf1, 'draws': case['draws']}, probes, viol,
